@@ -330,6 +330,10 @@ def gen_desc(seed, idx):
         if mode == 'iocb' and rng.random() < 0.15:
             ops.append({'t': round(t + rng.choice([0.0, 0.001, 0.3, tout / 1000.0, 2.0]), 4), 'op': 'cancel',
                         'tok': op['tok']})
+        if rng.random() < 0.1:
+            # unconfirmed traffic to the peer that still owes the answer (or to another one)
+            ops.append({'t': round(t + rng.choice([0.0, 0.0005, 0.2, 1.0]), 4), 'op': 'unconf', 'c': 'c0',
+                        's': op['s'] if rng.random() < 0.7 else 's%d' % rng.randrange(nserv)})
     ops.sort(key=lambda o: o['t'])
     faults = txngen.fault_profile(rng, tout / 1000.0, tseg / 1000.0)
     timed = []
